@@ -2032,6 +2032,17 @@ class LmGeo(Suite):
             out.append(("lmgeo-euc-distance", f"euc_distance {res['euc_distance']}, (squared) distance to the soma: {want} (pids={pids})"))
         if res["diameter"] != [2.0 * a for a in r]:
             out.append(("lmgeo-diameter", f"diameter {res['diameter']} of radii {r}"))
+        kids = {}
+        for i, p in enumerate(pids):
+            kids.setdefault(p, []).append(i)
+        for i in range(n):
+            ks = kids.get(i, [])
+            wv = [[float(xyz[c][k] - xyz[i][k]) for k in range(3)] for c in ks] if len(ks) == 2 else "E"
+            wd = [[2.0 * r[pids[i]]], [2.0 * r[ks[0]]], [2.0 * r[ks[1]]]] if len(ks) == 2 and pids[i] != -1 else "E"
+            if res["bif_vector_local"][i] != wv or res["rall_power_d"][i] != wd:
+                out.append(("lmgeo-bifurcation", f"node {i}: _bif_vector_local {res['bif_vector_local'][i]} / _rall_power_d {res['rall_power_d'][i]}; "
+                                                 f"child − node vectors {wv}, diameters (parent, children) {wd} (pids={pids})"))
+                break
         for b, L, c, t1, t2 in zip(res["branches"], res["branch_pathlength"], res["contraction"], res["taper_1"], res["taper_2"]):
             wl = float(sum(d2(u, v) for u, v in zip(b, b[1:])))
             wc = "E" if wl == 0 else d2(b[0], b[-1]) / wl
